@@ -652,16 +652,29 @@ fn sync_extract(op: &Value, name: &str) -> Value {
     }
 }
 
-fn list_json(cache: &Path, raw_index: bool) -> Value {
+fn list_json(cache: &Path, raw_index: bool, op: &Value) -> Value {
     let mut entries = Vec::new();
     let mut errs = Vec::new();
     let mut n = 0u64;
-    let it: Box<dyn Iterator<Item = cacache::Result<cacache::Metadata>>> = if raw_index {
+    let mut it: Box<dyn Iterator<Item = cacache::Result<cacache::Metadata>>> = if raw_index {
         Box::new(cacache::index::ls(Path::new(cache)))
     } else {
         Box::new(cacache::list_sync(cache))
     };
-    for item in it {
+    // the listing is consumed lazily; between two items the same caller removes a key for good
+    let rm_key = opt_s(op, "rm_key");
+    let rm_at = op.get("rm_at").and_then(|v| v.as_u64()).unwrap_or(0);
+    let mut rm: Option<Value> = None;
+    loop {
+        if let Some(k) = rm_key {
+            if rm.is_none() && n == rm_at {
+                rm = Some(res_unit(cacache::RemoveOpts::new().remove_fully(true).remove_sync(cache, k)));
+            }
+        }
+        let item = match it.next() {
+            Some(i) => i,
+            None => break,
+        };
         n += 1;
         match item {
             Ok(m) => entries.push(meta_json(&m)),
@@ -671,7 +684,16 @@ fn list_json(cache: &Path, raw_index: bool) -> Value {
             return json!({"r":"hang","msg":"listing does not end"});
         }
     }
-    ok(json!({"entries": entries, "errs": errs}))
+    if let Some(k) = rm_key {
+        if rm.is_none() {
+            rm = Some(res_unit(cacache::RemoveOpts::new().remove_fully(true).remove_sync(cache, k)));
+        }
+    }
+    let mut v = ok(json!({"entries": entries, "errs": errs}));
+    if let Some(r) = rm {
+        v["rm"] = r;
+    }
+    v
 }
 
 fn sync_link_to(op: &Value) -> Value {
@@ -755,8 +777,8 @@ fn exec_sync(op: &Value) -> Value {
         "metadata" => res_meta(cacache::metadata_sync(cache, s(op, "key"))),
         "find" => res_meta(cacache::index::find(Path::new(cache), s(op, "key"))),
         "exists" => ok(json!({"b": cacache::exists_sync(cache, &parse_sri(op, "sri"))})),
-        "list" => list_json(cache, false),
-        "ls" => list_json(cache, true),
+        "list" => list_json(cache, false, op),
+        "ls" => list_json(cache, true, op),
         "remove" => res_unit(cacache::remove_sync(cache, s(op, "key"))),
         "remove_hash" => res_unit(cacache::remove_hash_sync(cache, &parse_sri(op, "sri"))),
         "remove_opts" => res_unit(
